@@ -56,11 +56,16 @@ func (r *c12Run) runSeq(ops []string, compare bool) (fails []lib.Failure, dis *l
 		return nil, nil, fmt.Errorf("sequence must start with `hook cfg <max> <scripted|prod>`: %q", ops[0])
 	}
 	r.nfile++
-	m, e := c12Open(lib.TempDB(fmt.Sprintf("c12-%d.db", r.nfile)), max, cl == "prod", r.target)
+	file := lib.TempDB(fmt.Sprintf("c12-%d.db", r.nfile))
+	m, e := c12Open(file, max, cl == "prod", r.target)
 	if e != nil {
 		return nil, nil, e
 	}
-	defer m.close()
+	defer func() {
+		m.close()
+		_ = os.Remove(file)
+		_ = os.Remove(file + "-journal")
+	}()
 	ref := newC12Ref(max, cl == "prod")
 	if compare && r.lean != nil {
 		if a, e := r.lean.Ask(ops[0]); e != nil {
@@ -280,11 +285,14 @@ func c12GenSeq(rng *rand.Rand, max int, prod bool, n int) []string {
 				}
 			}
 			ops = append(ops, "hook notify "+strings.Join(ps, " "))
-		case x < 84:
+		case x < 83:
 			ops = append(ops, "hook get "+sym)
-		case x < 91:
+		case x < 90:
 			delete(reg, sym)
 			ops = append(ops, "hook delete "+sym)
+		case x < 92:
+			// malformed stream: requests without url
+			ops = append(ops, []string{"hook register BEARER - tok00 -", "hook get -", "hook delete -", "hook register - - - -"}[rng.Intn(4)])
 		case x < 97:
 			ops = append(ops, "hook restart")
 		default:
@@ -328,7 +336,7 @@ func c12Enumerate(max int, n int) [][]string {
 
 func runC12(c *Ctx) error {
 	c.R.Rule = "sequences of 8..26 ops (thorough: ..60) over 4 URLs: register {BEARER|CUSTOM_HEADER|no auth|header name left out} (so re-registration of active and inactive URLs happens), " +
-		"notify with a per-URL outcome from {200, other status incl. 2xx/3xx, transport error, unreadable body (status 200 or 500)}, get, delete, restart (close + reopen the SQLite file), dump; " +
+		"notify with a per-URL outcome from {200, other status incl. 2xx/3xx, transport error, unreadable body (status 200 or 500)}, get, delete (also of unknown URLs), requests without url (malformed stream), restart (close + reopen the SQLite file), dump; " +
 		"every max_tries 1..5; scripted client stream + production-client stream against an httptest server; plus every sequence of length <=3 (thorough <=4) over a 7-letter alphabet on one URL for max_tries 1..3. " +
 		"A sequence is non-trivial when it has a failed delivery and at least one of: success after failure, re-registration of an inactive URL, delete-then-register, notify after restart; distinct by op list."
 	r := &c12Run{c: c, perSig: map[string]int{}, shrink: true}
